@@ -1,0 +1,55 @@
+//go:build verif
+
+package verifhook
+
+import "sync/atomic"
+
+// Enabled reports if the hooks are compiled in.
+const Enabled = true
+
+// Kind is the kind of hook call passed to the handler.
+type Kind int
+
+const (
+	// KindPoint is a schedule point.
+	KindPoint Kind = iota
+	// KindEnter is the start of a critical section.
+	KindEnter
+	// KindLeave is the end of a critical section.
+	KindLeave
+)
+
+// HandlerFunc is the type of the hook handler.
+type HandlerFunc func(kind Kind, name string, obj any)
+
+var handler atomic.Pointer[HandlerFunc]
+
+// SetHandler sets the hook handler (nil disables).
+func SetHandler(h HandlerFunc) {
+	if h == nil {
+		handler.Store(nil)
+		return
+	}
+	handler.Store(&h)
+}
+
+// Point is a schedule point: a place where the harness may park the caller.
+func Point(name string, obj any) {
+	if h := handler.Load(); h != nil {
+		(*h)(KindPoint, name, obj)
+	}
+}
+
+// Enter marks the beginning of a library critical section on obj.
+func Enter(obj any) {
+	if h := handler.Load(); h != nil {
+		(*h)(KindEnter, "", obj)
+	}
+}
+
+// Leave marks the end of a library critical section on obj.
+func Leave(obj any) {
+	if h := handler.Load(); h != nil {
+		(*h)(KindLeave, "", obj)
+	}
+}
